@@ -90,6 +90,19 @@ def norm(x, reg):
     return x
 
 
+_CUF = {}
+
+
+def concrete_spec_functions(reg, repo):
+    """Executable definitions of spec functions for the concrete runs: WADV is the recurrence that the
+    real n_advance of the tree under test induces (as in pyvc.axiomcheck)."""
+    if repo not in _CUF:
+        from . import axiomcheck
+        m = axiomcheck.real_n_advance_model(reg, repo)
+        _CUF[repo] = {"WADV": m["WADV"]} if "WADV" in m else {}
+    return _CUF[repo]
+
+
 def run(repo="/repo", verbose=True):
     nat = native(SPECS, repo)
     index = SourceIndex(repo)
@@ -110,6 +123,7 @@ def run(repo="/repo", verbose=True):
         st.frames[0].vars["g"] = Obj("g", "Ghost")
         eng.concrete_oplist = st.heap["self"].get("_schedule") if isinstance(
             st.heap["self"].get("_schedule"), ObjList) else None
+        eng.concrete_uf = concrete_spec_functions(reg, repo)
         eng.concrete_nondet = [spec[3], 10 ** 6, 10 ** 6]
         eng.concrete_limit = len(rec["stream"])
         err = None
